@@ -12,758 +12,839 @@ Definition show_fres (r : fres) : string :=
   end.
 Definition check (rs : list rune) : string := digest (show_fres (format_res rs)).
 Definition full (rs : list rune) : string := show_fres (format_res rs).
-Eval vm_compute in ("<<<M11>>>" ++ check (runes_of_ascii "root packet repeatCount
-    {repeat tag As  , Logon @calculatedFrom(
-""it's"" )
-, @calculatedFrom( ""`tick`""
-) string uint8x , repeat /// triple
-Pad u8x `line1
-line2`
-,@leftPad( )char[
-    007
-    ] string_
-    , @lengthOf(Packet ) repeat
-    int8 Header `it's`,
-    // `tick` ""quote"" 'q'
-    } root packet pack{
-    uint64  Packet @calculatedFrom(	""\n""
-    )
-, }
-    options {	pack	=
-    ""// no comment"" //x
-;
-body // " ++ [128512]%N ++ runes_of_ascii " emoji
-= ""a	b""
-;} // trailing space 
-packet Logon// trailing space 
-{ u8x{
+Eval vm_compute in ("<<<M314>>>" ++ check (runes_of_ascii "// c
+packet
+uint8x
+{ @tag(
+65535
+    ) x_y_z ,
+char[]  a1@calculatedFrom(
+""`tick`"")
+, @tag(1 )
+    @tag(
+    1 )
+    @tag(4294967296 )
+    repeat string rootA `tab	here` , repeat i32 tag , } packet pack { @calculatedFrom( ""// no comment"")@lengthOf(
+uint8x )string zchar @calculatedFrom(""`tick`"" ) ,
+    }
+root packet tag {// trailing space 
+@tag( 42/// triple
+) @lengthOf(As)  @leftPad
+    ( '0' )
+match u128
+as float { [00]:
+charz ,},
+} packet chars {
+    @leftPad ( '\x00') char[	10	] len
+@calculatedFrom( ""a	b"" )
+    ,@tag( 00 )@tag(
+    10)uint64 matchKey ,x_y_z
+{ repeat // packet A { u8 x, }
+string rootA	`doc` , tag // packet A { u8 x, }
+, repeat char
+//x
+//	t
+MetaDataX , int64
+    asx
     // 50% %s
-    trueish
-@lengthOf(tag) `two words` , match body
-    // trailing space 
-    as
-int  {// trailing space 
-0 :i8i8 } ,
-    repeat uint8x o
-, } //	t
-,
-@tag(65535)
-int16 falsey, zchar[ 10] float `100% of %d`
-    , repeat
-    // packet A { u8 x, }
-    calculatedFrom
-`a\` , zchar[ 10]	crc
-@lengthOf(
-    repeatCount
+    ,
+    } ,// trailing space 
+i16
+stringy  ,match x_y_z as BodyLength //x
+{
+    [""\" ++ [233]%N ++ runes_of_ascii """ ,
+""" ++ [28040; 24687]%N ++ runes_of_ascii """
+, 7, 0
+, 7, 4294967296 ]: A , // " ++ [128512]%N ++ runes_of_ascii " emoji
+}
+, @calculatedFrom(""\n""
 )
-`" ++ [28040; 24687; 31867; 22411]%N ++ runes_of_ascii "` , // `tick` ""quote"" 'q'
-match
+@leftPad
+    //
+    ( )f64 msg_type
+, repeat Logon`say ""hi""`  , @tag( 007 ) match
+    crc as
+    msg_type	{ [""a\\""
+,0123456789 , ""`tick`""
+, """ ++ [233]%N ++ runes_of_ascii "t" ++ [233]%N ++ runes_of_ascii """  ,
+//
 // trailing space 
-// " ++ [128512]%N ++ runes_of_ascii " emoji
-rootA as repeatCount  {
-3: crc
+""{,}"" , // a // b
+255,	0123456789
+    //
+    ]: // packet A { u8 x, }
+Header 0123456789 : len // c
+,65535
+:BodyLength,
 ""CRC32""
-    : //x
-x
-    //x
-    , 007
-    :A 7: chars
-    ,	[
-    007 ]: x ,  [
-    //x
-    007// " ++ [27880; 37322]%N ++ runes_of_ascii "
-, 255  ,""" ++ [28040; 24687]%N ++ runes_of_ascii """ , 42 ]: Z9_
-    , } ,  @tag(
-007//	t
-)
-repeat string len , int	, Foo  {
+:string_// " ++ [128512]%N ++ runes_of_ascii " emoji
+,
+4294967296 : len
+    , """ ++ [28040; 24687]%N ++ runes_of_ascii """  : trueish},repeat string
+    u ,	lengthOf Z9_ `{ , }`,} // 50% %s
+packet
+    trueish
+{  f32 Logon @calculatedFrom(
+    ""1"" ) , i64 matchKey
+    @calculatedFrom( ""x y""// a // b
+) //x
+`" ++ [28040; 24687; 31867; 22411]%N ++ runes_of_ascii "` , i8i8 `it's`
+    , msg_type
+, uint8 lengthOf ,int trueish, char[ 0123456789
+]
+uint8x , i8 int @lengthOf( msg_type ) `say ""hi""` ,@rightPad	( )  repeat f64
+    Z9_ , metadata{
+    falsey @calculatedFrom(  ""abc"" ) ,	} //
+, }")).
+Eval vm_compute in ("<<<M1827>>>" ++ check (runes_of_ascii "
+options
+{
+
+    StringPrefixLenType =u16 
+;ArrayPrefixLenType
+    = u16
+;
+} packet SampleBinary
+{ uint16
+	MsgType
+`" ++ [28040; 24687; 31867; 22411]%N ++ runes_of_ascii "` ,
+
+u16
+BodyLenght
+@lengthOf(
+Body  ) `" ++ [28040; 24687; 20307; 38271; 24230]%N ++ runes_of_ascii "` , 
 match
-roots
+MsgType
 as
-    _x
-    { ""// no comment"" : o, [ 4294967296, """ ++ [233]%N ++ runes_of_ascii "t" ++ [233]%N ++ runes_of_ascii """ , 4294967296 , 7  , ""packet""
+    Body 
+{ 1:
+Logon
+, 2
+:
+    Logout
+
+    ,
+
+3:
+
+Heartbeat ,	4  :
+	RiskControlRequest, 5 : RiskControlResponse
+, }
+
+, @calculatedFrom( 
+""CRC32"" ) u32  Ckecksum
+    `" ++ [26657; 39564; 21644]%N ++ runes_of_ascii "` , 
+}
+    packet
+Logon	{	@leftPad
+
+(
+
+'0' )char[10
+] 
+UserName `" ++ [29992; 25143; 21517]%N ++ runes_of_ascii "`,
+
+string Password
+`" ++ [23494; 30721]%N ++ runes_of_ascii "`
+	,	uint64 ClientId 
+`" ++ [23458; 25143; 31471]%N ++ runes_of_ascii "ID`
+
+    ,u16
+
+    HeartbeatInterval  `" ++ [24515; 36339; 38388; 38548]%N ++ runes_of_ascii "`
 ,
-    3
-] : string_ ,""x y""// " ++ [27880; 37322]%N ++ runes_of_ascii "
-:float [ ""a\""b"" //x
+} packet
+Logout { @rightPad
+('0'
+    )
+    char[
+	10  ]UserName	`" ++ [29992; 25143; 21517]%N ++ runes_of_ascii "` 
 ,
-""1""
-] // packet A { u8 x, }
-: zchar  ,}
-    , rootA { repeat metadata{ repeat
+uint64
+
+    ClientId`" ++ [23458; 25143; 31471]%N ++ runes_of_ascii "ID`  ,  } packet Heartbeat {} packet	RiskControlRequest
+{
+string UniqueOrderId`" ++ [21807; 19968; 35746; 21333; 21495]%N ++ runes_of_ascii "`
+    ,
+
+    char[
+16 ]ClOrdID
+    `" ++ [23458; 25143; 35746; 21333; 21495]%N ++ runes_of_ascii "` ,
+
+char[ 3
+	]
+MarketID `" ++ [24066; 22330]%N ++ runes_of_ascii "id`, 
 char[
-    1 ] i64_
-`100% of %d`, match matchKey as stringy{ [ ""`tick`"" ] :x ,
-[
-    3 , 65535 ,255 ,  ""a\\"",""a\\"" , ""x y"" //x
-] : _x,} , }
-, }	,
-repeat char stringy ,
-    A `crlf
-line`
-, //	t
-}, @leftPad ( ) Header{	i32 asx @lengthOf(
-    lengthOf
-)
-,
+12
+]  SecurityID
+`" ++ [35777; 21048; 20195; 30721]%N ++ runes_of_ascii "` , char
+
+    Side
+`" ++ [20080; 21334; 26041; 21521]%N ++ runes_of_ascii "`
+	, char
+
+OrderType
+    `" ++ [35746; 21333; 31867; 22411]%N ++ runes_of_ascii "`
+
+, u64
+    Price	`" ++ [20215; 26684]%N ++ runes_of_ascii "`, u32
+
+Qty `" ++ [25968; 37327]%N ++ runes_of_ascii "`  ,	repeat 
+string
+
+    ExtraInfo
+`" ++ [38468; 21152; 20449; 24687]%N ++ runes_of_ascii "`  , repeat 
+SubOrder {
+char[ 16	]
+ClOrdID
+
+    `" ++ [23376; 35746; 21333; 21495]%N ++ runes_of_ascii "`
+	, 
+u64
+
+Price	`" ++ [23376; 35746; 21333; 20215; 26684]%N ++ runes_of_ascii "`,u32
+
+Qty
+
+`" ++ [23376; 35746; 21333; 25968; 37327]%N ++ runes_of_ascii "` ,
 } , }
-")).
-Eval vm_compute in ("<<<M1341>>>" ++ check (runes_of_ascii "// top
+
+packet	RiskControlResponse{
+
+string
+UniqueOrderId
+
+`" ++ [21807; 19968; 35746; 21333; 21495]%N ++ runes_of_ascii "`
+
+, i32
+Status `" ++ [29366; 24577]%N ++ runes_of_ascii "` , string
+Msg`" ++ [32467; 26524; 20449; 24687]%N ++ runes_of_ascii "`
+
+    ,
+
+repeat 
+Detail  , 
+}
+
 packet
-    // c0
-Frame // c1a
-  // c1b
+
+Detail
+
 {
+	string
+RuleName 
+`" ++ [35268; 21017; 21517; 31216]%N ++ runes_of_ascii "`
+
+    ,	u16
+Code	`" ++ [21407; 22240; 20195; 30721]%N ++ runes_of_ascii "` 
+,
+}
+")).
+Eval vm_compute in ("<<<M1385>>>" ++ check (runes_of_ascii "// top
+options // c0
+{ LittleEndian
     // c2
-u8 // c3
-HK // c4
-, // c5
-u8 // c6
-BK , // c8a
-  // c8b
-u8
+= false ; // c5
+StringPrefixLenType
+    // c6
+= // c7a
+  // c7b
+u16 // c8
+;
     // c9
-TK // c10
-, match // c12
-HK
-    // c13
-as Hdr
-    // c15
-{ // c16a
-  // c16b
-1 // c17
-: // c18a
-  // c18b
-HdrA // c19a
-  // c19b
-, 2 // c21a
+FixedStringPadFromLeft // c10
+= // c11a
+  // c11b
+true // c12a
+  // c12b
+; // c13
+FixedStringPadChar
+    // c14
+= // c15
+'0' ; }
+    // c18
+packet // c19
+Fill
+    // c20
+{ // c21a
   // c21b
-:
-    // c22
-HdrB , // c24
-}
+} // c22
+root
+    // c23
+packet // c24a
+  // c24b
+Order
     // c25
-, // c26a
-  // c26b
-match // c27a
-  // c27b
-BK
-    // c28
-as
-    // c29
-Body { 1 // c32a
-  // c32b
-: // c33a
-  // c33b
-BodyA // c34a
-  // c34b
-, // c35a
+{ repeat // c27
+Fill // c28a
+  // c28b
+, char[]
+    // c30
+clOrdID // c31a
+  // c31b
+, // c32
+@rightPad // c33
+(
+    // c34
+'\x00' // c35a
   // c35b
-2
-    // c36
-:
-    // c37
-BodyB , // c39a
-  // c39b
-} ,
-    // c41
-match
-    // c42
-TK // c43
-as Trl // c45a
-  // c45b
-{ 1 // c47
-: // c48
-TrlA // c49
-, // c50
-} ,
-    // c52
-}
-    // c53
-packet HdrA // c55
-{ // c56
-u8 // c57
-a // c58a
-  // c58b
-, // c59
-} // c60a
-  // c60b
-packet HdrB // c62
-{
-    // c63
-u16 b
+) char[ 4 // c38a
+  // c38b
+] lastPx
+    // c40
+, // c41a
+  // c41b
+char[] // c42
+OrderId
+    // c43
+, // c44a
+  // c44b
+int8 tag7
+    // c46
+, // c47
+u8 f1 ,
+    // c50
+u16 count // c52
+@lengthOf( // c53a
+  // c53b
+Body ) // c55
+, // c56a
+  // c56b
+match f1 as Body // c60
+{ // c61a
+  // c61b
+[ 159 , 49
     // c65
-, } packet
+] : // c67a
+  // c67b
+Fill
     // c68
-BodyA // c69
-{ // c70
-u32
-    // c71
-c
+,
+    // c69
+} , // c71
+u16
     // c72
-, // c73
-}
-    // c74
-packet // c75
-BodyB // c76
-{ u64 d , // c80a
-  // c80b
-}
-    // c81
-packet // c82
-TrlA
-    // c83
-{ // c84a
-  // c84b
-u8 // c85
-e
-    // c86
-, // c87a
-  // c87b
-} root
-    // c89
-packet
-    // c90
-Msg // c91
-{ // c92
-Frame // c93a
-  // c93b
-, // c94a
-  // c94b
-u8 // c95a
-  // c95b
-x
-    // c96
-, // c97
-}
-    // c98
+Tail
+    // c73
+@calculatedFrom( // c74a
+  // c74b
+""CRC32""
+    // c75
+) ,
+    // c77
+} // c78a
+  // c78b
 ")).
-Eval vm_compute in ("<<<M1320>>>" ++ check (runes_of_ascii "// top
+Eval vm_compute in ("<<<M104>>>" ++ check (runes_of_ascii "MetaData Z9_{ string roots
+, repeatCount packetx`say ""hi""`, }
+//
+// packet A { u8 x, }
+packet float
+{  repeat
+char[]	metadata ,
+zchar[ 00 ] leftPad @calculatedFrom(""" ++ [233]%N ++ runes_of_ascii "t" ++ [233]%N ++ runes_of_ascii """ )
+`" ++ [233]%N ++ runes_of_ascii "`,string T
+    @lengthOf( Pad)
+`doc`
+, match f32a as
+    crc { ""x y"" :Foo
+, // @lengthOf(
+0: _x [ ""1"" ]
+    :
+// a // b
+// packet A { u8 x, }
+As [ 255 , 1 ,"""" ,	""1"", ""abc"" , """ ++ [233]%N ++ runes_of_ascii "t" ++ [233]%N ++ runes_of_ascii """	,
+    10 ] :  leftPad	,// @lengthOf(
+""{,}"" :
+    a1  4294967296  :	body ,
+    //
+    } , lengthOf
+@calculatedFrom(
+    ""\" ++ [233]%N ++ runes_of_ascii """)
+    , // packet A { u8 x, }
+@calculatedFrom( ""`tick`""
+    ) @lengthOf(
+u
+)  @leftPad (
+    '0'
+) match o as BodyLength  { [
+    3
+,
+    1 ,""a\\"" ,""`tick`"" ,// @lengthOf(
+1, 1 ]: asx , [ ""a	b""
+, 255 ,
+3
+    , ""abc""
+    ,65535 ] :
+    asx ,
+10
+:Z9_
+, [
+10, //
+""CRC32"", 7
+] : roots
+, } ,
+    // 50% %s
+    u16 a1 ,  @tag( 00) uint32	MetaDataX
+`u8 x,` , @leftPad( '\x00')
+    @rightPad //x
+(
+    )
+    i64
+calculatedFrom
+,	}
+")).
+Eval vm_compute in ("<<<M1858>>>" ++ check (runes_of_ascii "options {
+    ArrayPrefixLenType = u32;
+    FixedStringPadFromLeft = false;
+    FixedStringPadChar = '0';
+}
+
+packet Trade {
+    repeat InVenue78 {
+        u16 tag7,
+        repeat InLastpx9 {
+            u8 pad0,
+        },
+        int64 Tail,
+        repeat InQty37 {
+            char[2] OrderId,
+            zchar[6] lastPx,
+            int64 Qty,
+        },
+        uint8 Side2,
+    },
+}
+
+packet Logon {
+    repeat string venue,
+    @rightPad('\x00')
+    char[3] sym,
+    zchar[9] count,
+    zchar[7] f1,
+    Trade,
+}
+
+packet Logout {
+}
+
+root packet Reject {
+    int32 sym,
+    u8 Px,
+    u32 Tail @lengthOf(Body),
+    match Px as Body {
+        184 : Trade,
+        173 : Logon,
+        12 : Logout,
+    },
+    u32 tag7 @calculatedFrom(""CR\
+        C32""),
+}")).
+Eval vm_compute in ("<<<M355>>>" ++ check (runes_of_ascii "options  { } root packet A {
+@tag(
+65535 ) @lengthOf( calculatedFrom )
+match msg_type as
+_x // `tick` ""quote"" 'q'
+{// c
+00
+: MetaDataX// packet A { u8 x, }
+, 0123456789 :matchKey , [	""""
+    ]:
+//	t
+//x
+stringy["""",255
+, 4294967296 ,
+    /// triple
+    42 ,
+3,""// no comment"" ] :  chars  [//	t
+""abc"" , ""CRC32""
+]// c
+:A , ""\" ++ [233]%N ++ runes_of_ascii """
+: stringy ,
+    // `tick` ""quote"" 'q'
+    }
+    ,// @lengthOf(
+match
+// 50% %s
+// " ++ [128512]%N ++ runes_of_ascii " emoji
+trueish as repeatCount{ [ 4294967296 , """ ++ [233]%N ++ runes_of_ascii "t" ++ [233]%N ++ runes_of_ascii """] : //	t
+crc ""a\\""
+:falsey ,
+""a\\"" : A
+,	10 : // c
+uint8x , ""it's"" :
+    repeatCount
+, } ,  asx float, @rightPad ( ) f64 int @lengthOf(roots
+    )  `doc` , }
+    // c
+    options { string_=""packet"" ;}")).
+Eval vm_compute in ("<<<M1195>>>" ++ check (runes_of_ascii "// top
+options // c0
+{ // c1
+} // c2
+MetaData // c3
+packetx // c4
+{ // c5
+int // c6
+falsey // c7
+`two words` // c8
+, // c9
+int32 // c10
+trueish // c11
+, // c12
+char[] // c13
+u8x // c14
+, // c15
+A // c16
+x // c17
+`// not a comment` // c18
+, // c19
+} // c20
+root // c21
+packet // c22
+i8i8 // c23
+{ // c24
+@lengthOf( // c25
+repeatCount // c26
+) // c27
+@tag( // c28
+1 // c29
+) // c30
+@calculatedFrom( // c31
+""a	b"" // c32
+) // c33
+string // c34
+stringy // c35
+@calculatedFrom( // c36
+""\n"" // c37
+) // c38
+`line1
+line2` // c39
+, // c40
+pack // c41
+`100% of %d` // c42
+, // c43
+} // c44
+")).
+Eval vm_compute in ("<<<M98>>>" ++ check (runes_of_ascii "MetaData
+    //x
+    Pad
+{ u32  u128  `doc`
+// @lengthOf(
+//x
+, char[] len`a\`, Header  tag
+    , u8 repeatCount `tab	here`//	t
+,/// triple
+Pad int, } packet
+    len{
+//x
+/// triple
+As {
+pack
+_x `
+`
+, asx {
+    //
+    string  calculatedFrom
+@lengthOf(
+MetaDataX
+) , stringy u8x, char[
+    255 ] MetaDataX
+@calculatedFrom( """"
+), } ,
+calculatedFrom {string_ len , } ,	Header @lengthOf(
+// c
+//x
+charz ), }
+    ,
+    }
+// " ++ [27880; 37322]%N ++ runes_of_ascii "
+// " ++ [128512]%N ++ runes_of_ascii " emoji
+options {
+// c
+// a // b
+} options
+    { packetx	= ""`tick`""
+    ; /// triple
+i64_	= ' '; }")).
+Eval vm_compute in ("<<<M1137>>>" ++ check (runes_of_ascii "// top
 packet // c0a
   // c0b
-A { // c2a
-  // c2b
-u8 // c3
-a // c4a
-  // c4b
-, // c5
-} // c6a
-  // c6b
-packet // c7
+_x // c1
+{
+    // c2
+match // c3a
+  // c3b
+Foo // c4
+as // c5
+Z9_
+    // c6
+{ ""a	b""
+    // c8
+: // c9
+Pad // c10a
+  // c10b
+, }
+    // c12
+, // c13a
+  // c13b
+repeat // c14
+x // c15
+`// not a comment`
+    // c16
+, @rightPad // c18
+( // c19a
+  // c19b
+' ' )
+    // c21
+@calculatedFrom( // c22
+""a\\"" // c23a
+  // c23b
+)
+    // c24
+metadata // c25
+MetaDataX // c26
+, @tag(
+    // c28
+0 // c29a
+  // c29b
+) Logon
+    // c31
+int `two words`
+    // c33
+, } // c35
+")).
+Eval vm_compute in ("<<<M1722>>>" ++ check (runes_of_ascii "  options
+	{
+    T 
+=""" ++ [28040; 24687]%N ++ runes_of_ascii """ 
+;  string_
+	// @lengthOf(
+// 50% %s
+=
+false
+	;  f32a
+=
+    0123456789	;
+
+    Z9_
+    = 
+255
+	}MetaData
+
+chars 	 // " ++ [27880; 37322]%N ++ runes_of_ascii "
+		{ 
+float32 charz `{ , }`
+,  // @lengthOf(
+  	zchar[	1  ] 
+u8x
+
+    `100% of %d`  , uint16	asx
+
+`two words` ,
+    char[
+	4294967296] Header
+, i32
+	Logon
+    ,
+	char[
+0123456789]  // c
+crc
+    , 
+} 
+packet/// triple
+	options1{ falsey `crlf
+line`  ,
+// `tick` ""quote"" 'q'
+
+/// triple
+    }
+")).
+Eval vm_compute in ("<<<M1282>>>" ++ check (runes_of_ascii "options {
+    // c1
+LittleEndian = true ; } // c6
+packet // c7a
+  // c7b
 B
     // c8
 {
     // c9
-u16 b // c11
-, } // c13a
-  // c13b
-packet // c14a
+u8 // c10a
+  // c10b
+a // c11a
+  // c11b
+, // c12
+string s // c14a
   // c14b
-C // c15
-{ // c16a
-  // c16b
-u32 c // c18
-, }
-    // c20
-root // c21a
-  // c21b
-packet M
-    // c23
-{ // c24
-u16 // c25
-Kc , // c27a
-  // c27b
-u16 // c28
-Kb // c29
-, // c30a
-  // c30b
-u16 Ka // c32a
-  // c32b
-,
-    // c33
-match Kc
-    // c35
-as
-    // c36
-X // c37
-{ 9
-    // c39
-: A // c41
-, 10 // c43
-: // c44
-B // c45
-,
-    // c46
-} , // c48a
-  // c48b
-match // c49
-Kb // c50a
-  // c50b
-as // c51
-Y // c52a
-  // c52b
-{ 2 // c54
-: C , // c57a
-  // c57b
-1 // c58a
-  // c58b
-: // c59a
-  // c59b
-A ,
-    // c61
+, // c15a
+  // c15b
 }
-    // c62
-, // c63a
-  // c63b
-match
-    // c64
-Ka // c65
-as Z // c67a
-  // c67b
-{
-    // c68
-1 // c69
-: // c70
-B // c71a
-  // c71b
-, // c72a
-  // c72b
-} // c73
-, // c74a
-  // c74b
-A // c75a
-  // c75b
-, // c76
-B // c77
-, // c78a
-  // c78b
-C , // c80a
-  // c80b
-} // c81
-")).
-Eval vm_compute in ("<<<M1>>>" ++ check (runes_of_ascii "root packet
-    len { match x as metadata// " ++ [27880; 37322]%N ++ runes_of_ascii "
-{ [
-    1
-// packet A { u8 x, }
-//x
-,
-    0 ,	"""" , ""a	b"",00 ]
-    :	pack , [""// no comment"" , ""x y""
-, """ ++ [233]%N ++ runes_of_ascii "t" ++ [233]%N ++ runes_of_ascii """ ]:	Packet //
-,	} , repeat lengthOf u128, @calculatedFrom(
-    // " ++ [128512]%N ++ runes_of_ascii " emoji
-    ""it's""
-) @lengthOf( calculatedFrom
-// trailing space 
-// 50% %s
-) @lengthOf( u )	metadata
-{ int8 lengthOf
-    `crlf
-line` ,} ,
-@tag(// trailing space 
-4294967296 ) calculatedFrom {f32 i64_ // packet A { u8 x, }
-`" ++ [233]%N ++ runes_of_ascii "`,} ,@lengthOf(
-BodyLength  )	repeat//x
-char[65535 ] float
-// `tick` ""quote"" 'q'
-// c
-,@calculatedFrom(
-""\" ++ [233]%N ++ runes_of_ascii """) i64_ { match
-stringy as
-    _x{ //	t
-[ 4294967296 ,
-    3 ]
-:	i8i8
-, [ ""a\""b"" ]: x_y_z ,
-    3:len , }
-    , }  , @tag( // trailing space 
-0)
-zchar[
-    7
-] x_y_z ,@lengthOf( Header )
-repeat
-// 50% %s
-/// triple
-u64 As `
-` ,// " ++ [27880; 37322]%N ++ runes_of_ascii "
-@rightPad
-    ( ) /// triple
-@rightPad (  '\x00') u16
-Header	`{ , }` , }
-")).
-Eval vm_compute in ("<<<M291>>>" ++ check (runes_of_ascii "MetaData len { float  roots
-    `u8 x,` ,	u32 int `" ++ [233]%N ++ runes_of_ascii "` , } root packet x{ @tag(1	)repeat charz
-, Pad @calculatedFrom( """ ++ [233]%N ++ runes_of_ascii "t" ++ [233]%N ++ runes_of_ascii """
-)
-,match int as
-    u8x { //x
-0 :
-leftPad, [  1,0123456789 , 10 ] : uint8x }
-,@leftPad( ) /// triple
-repeat u128
-    { f64 _x `two words`
-,T @calculatedFrom(""\n""
-) `u8 x,`
-    /// triple
-    ,match
-A as crc{ 3:
-    // a // b
-    leftPad
-    ,""" ++ [128512]%N ++ runes_of_ascii """ : falsey , [ """ ++ [233]%N ++ runes_of_ascii "t" ++ [233]%N ++ runes_of_ascii """ ,
-4294967296,
-""" ++ [28040; 24687]%N ++ runes_of_ascii """
-, ""a	b"" , 00 // a // b
-,""" ++ [233]%N ++ runes_of_ascii "t" ++ [233]%N ++ runes_of_ascii """  ] :
-    rootA	,  ""1""
-    :MetaDataX , } , f32
-o@calculatedFrom( ""// no comment"" ) `// not a comment`
-,// a // b
-} ,
-    chars@calculatedFrom( ""{,}""
-)  , @rightPad
-    (
-' ' ) @tag( 0 )  repeat BodyLength``,body ,
-}
-MetaData	T
-{len i8i8
-    , }options { f32a = true } packet falsey { }
-")).
-Eval vm_compute in ("<<<M161>>>" ++ check (runes_of_ascii "root/// triple
-packet options1
-    {// " ++ [27880; 37322]%N ++ runes_of_ascii "
-@tag(
-// c
-// 50% %s
-0
-    // `tick` ""quote"" 'q'
-    )
-    len leftPad	, @calculatedFrom(
-    """ ++ [233]%N ++ runes_of_ascii "t" ++ [233]%N ++ runes_of_ascii """ )
-    stringy a1 `` ,	@rightPad ( )a1	`" ++ [28040; 24687; 31867; 22411]%N ++ runes_of_ascii "`
-// " ++ [27880; 37322]%N ++ runes_of_ascii "
-// a // b
-, char Header @lengthOf( x
-) `a\` ,uint8x
-Z9_ `it's` ,
-match
-roots as
-    o { [ ""{,}"" , ""CRC32"" // `tick` ""quote"" 'q'
-] : o ,
-    ""CRC32"": Pad ,
-} , // 50% %s
-@tag(
-    00) zchar[ 4294967296
-]	x , @lengthOf( repeatCount
-) uint16 // `tick` ""quote"" 'q'
-T ,  @lengthOf( u128 ) repeat
-i64_ { repeat	u8 MetaDataX // `tick` ""quote"" 'q'
-`" ++ [233]%N ++ runes_of_ascii "` ,
-    repeat
-    // a // b
-    u8x
-    // c
-    `two words`
-    ,
-}  ,
-} // packet A { u8 x, }")).
-Eval vm_compute in ("<<<M71>>>" ++ check (runes_of_ascii "root
-packet
-    matchKey { } MetaData
-u  {
-    } packet zchar { uint32 Z9_
-@lengthOf(A ) `" ++ [233]%N ++ runes_of_ascii "` , @calculatedFrom( ""packet"" ) @tag( 0123456789 )
-Header @calculatedFrom(
-    ""1""
-) `say ""hi""` , @lengthOf(
-// a // b
-//x
-repeatCount // trailing space 
-)
-u8 //
-stringy
-@lengthOf(
-    x
-) , string	string_ @calculatedFrom(""{,}"" ) ,zchar[ 4294967296] tag , char[]
-    trueish @calculatedFrom( ""`tick`"") `doc`
-,float32 repeatCount @lengthOf(	charz )
-`" ++ [233]%N ++ runes_of_ascii "` , @rightPad( )repeat
-f64 lengthOf `tab	here`
-    , @rightPad ( '0' )
-@calculatedFrom(
-    ""a\""b"" ) roots
-    ,	}
-")).
-Eval vm_compute in ("<<<M1605>>>" ++ check (runes_of_ascii "packet MDSnapshotZZ {
-    // c2
-    u8 a,// c5a
-    // c5b
-}// c6a
-
-// c6b
-packet OrderACK {
-    // c9a
-    // c9b
-    u16 b,// c12a
-    // c12b
-}// c13a
-
-// c13b
-packet HTTPServerInfo {
-    string s,
+    // c16
+root packet // c18a
+  // c18b
+P
     // c19
-}
-
-root packet FIXMsg {
-    // c24a
-    // c24b
-    u8 KType,// c27
-    MDSnapshotZZ,// c29a
-    // c29b
-    repeat OrderACK,// c32
-    match KType as Body {
-        // c37a
-        // c37b
-        1 : HTTPServerInfo,
-        // c41
-        2 : OrderACK,
-    },// c47a
-    // c47b
-}// c48")).
-Eval vm_compute in ("<<<M1632>>>" ++ check (runes_of_ascii "MetaData T {
-    char[0123456789] rootA `line1
-        line2`,
-    i32 Logon,
-    rootA asx,
-}
-
-root packet Header {
-    uint32 len @lengthOf(u) `
-        `,
-    repeat char MetaDataX `" ++ [28040; 24687; 31867; 22411]%N ++ runes_of_ascii "`,
-    uint8x @lengthOf(zchar) `u8 x,`,
-    uint8 Z9_,
-    @lengthOf(u128)
-    @lengthOf(MetaDataX)
-    @tag(0123456789)
-    Logon @lengthOf(body),
-}
-
-options {
-    Z9_ = uint32;
-    options1 = '\x00'
-}
-
-options {
-    Foo = ""// no comment"";
-}
-
-packet float {
-}")).
-Eval vm_compute in ("<<<M1379>>>" ++ check (runes_of_ascii "options {
-    ArrayPrefixLenType = u64;
-    FixedStringPadFromLeft = true;
-    FixedStringPadChar = '0';
-}
-packet Order {
-}
-root packet Leg {
-    char[] Ref,
-    repeat Order,
-    f32 Acct,
-    @leftPad('0') char[10] venue,
-    @rightPad('0') char[3] seqNo,
-    repeat u64 Px,
-    u8 Flags,
-    u32 lastPx @lengthOf(Body),
-    match Flags as Body {
-        185 : Order,
-    },
-    u16 sym @calculatedFrom(""CR\
-C32""),
-}
-")).
-Eval vm_compute in ("<<<M35>>>" ++ check (runes_of_ascii "options {  stringy =
-// packet A { u8 x, }
-// a // b
-true
-;
-    x_y_z
-=
-    false x ='\x00' //x
-;
-matchKey  =
-    i64
-; // c
-}root packet o {@lengthOf( float ) int32 As
-,
-}
-    root
-/// triple
-// trailing space 
-packet x
-{ // a // b
-@rightPad
-( ) i8i8 @calculatedFrom( ""x y"")//x
-, } MetaData
-u  { A
-    /// triple
-    u8x ,
-} options {
-    u8x = i64 _x  =""CRC32"" ; MetaDataX = u8 }
-")).
-Eval vm_compute in ("<<<M231>>>" ++ check (runes_of_ascii "MetaData	Logon /// triple
-{
-char[255 ]
-// trailing space 
-// `tick` ""quote"" 'q'
-msg_type
-,
-    A msg_type , char[
-4294967296
-    ]u ,// 50% %s
-} root packet
-    /// triple
-    uint8x
-    { match _x as len
-    { 255
-    : a1 , 10
-    // a // b
-    : options1
-    } ,
-crc
-    // a // b
-    ,
-@lengthOf(
-Header ) repeat roots `say ""hi""`,
-//
-// c
-}
-")).
-Eval vm_compute in ("<<<M1200>>>" ++ check (runes_of_ascii "// top
-options // c0
-{ // c1a
-  // c1b
-}
-    // c2
-options // c3
-{
-    // c4
-MetaDataX
-    // c5
-= // c6a
-  // c6b
-char // c7a
-  // c7b
-; } // c9
-MetaData // c10
-Pad // c11
-{ // c12
-i8 metadata // c14a
-  // c14b
-, // c15
-string // c16a
-  // c16b
-stringy , int8 // c19a
-  // c19b
-As // c20
-`{ , }`
+{ // c20
+u16
     // c21
-, } ")).
-Eval vm_compute in ("<<<M329>>>" ++ check (runes_of_ascii "packet roots {  pack  ``
-, //	t
-T @lengthOf( tag ) , x{ match len as
-    packetx {	[10] : // c
-rootA ,
-    }, repeat
-string
-leftPad
-`
-` , //	t
-char[ 7 ] Packet
-@calculatedFrom(	""a	b""
-    ) ,
-    char[]
-    uint8x  ``
-// trailing space 
-// a // b
-,} ,
-uint16
-leftPad
-,
+L // c22a
+  // c22b
+@lengthOf(
+    // c23
+B // c24
+)
+    // c25
+, // c26a
+  // c26b
+B
+    // c27
+, // c28
+u8 t ,
+    // c31
+} // c32a
+  // c32b
+")).
+Eval vm_compute in ("<<<M18>>>" ++ check (runes_of_ascii "
+packet
+    tag  {@tag( 00 ) match x_y_z as Packet{[3
+    ]:packetx , [// " ++ [128512]%N ++ runes_of_ascii " emoji
+""{,}"" ]
+// " ++ [27880; 37322]%N ++ runes_of_ascii "
+// 50% %s
+:
+BodyLength ,
+//x
+//
+00
+    : i8i8 , 255  :	asx
+    //
+    , },} packet
+Packet { @calculatedFrom(
+    // " ++ [27880; 37322]%N ++ runes_of_ascii "
+    """ ++ [233]%N ++ runes_of_ascii "t" ++ [233]%N ++ runes_of_ascii """ // 50% %s
+)	match i8i8
+as
+    charz
+// @lengthOf(
+// " ++ [128512]%N ++ runes_of_ascii " emoji
+{ 3
+: f32a ""a\\"" // " ++ [27880; 37322]%N ++ runes_of_ascii "
+: len
+,	} , @tag(	10 ) @lengthOf( charz	) int , repeat	string Foo ,}")).
+Eval vm_compute in ("<<<M102>>>" ++ check (runes_of_ascii "  packet matchKey { repeat BodyLength
+{
+metadata ,
+    string asx `{ , }` ,
+    }
+    , len
+{
+    repeat a1 charz
+    // trailing space 
+    ,}  ,} packet
+i8i8 { repeat  char[
+0123456789 // @lengthOf(
+]Z9_
+    `it's` ,  match // trailing space 
+Packet  as float { 1 :
+lengthOf}
+    , }
+    packet x_y_z	{	repeat char[	1 ]
+    //
+    falsey	,
+    }
+")).
+Eval vm_compute in ("<<<M1462>>>" ++ check (runes_of_ascii "
+// c
+
+packet
+	BodyLength
+	{
+@tag(
+42 )Header	tag	`u8 x,`
+    ,
+
+    }	options{  }
+
+packet 
+string_
+	{	float32
+rootA , uint8
+
+MetaDataX	`crlf
+line`
+
+    , charz
+    // " ++ [128512]%N ++ runes_of_ascii " emoji
+, @tag(
+4294967296
+	)
+    @rightPad	(
+
+'\x00')
+
+@tag(
+
+    7
+)
+
+    // c
+u32	u128 	 //x
+  @calculatedFrom(
+
+    ""\" ++ [233]%N ++ runes_of_ascii """),}
+")).
+Eval vm_compute in ("<<<M1482>>>" ++ check (runes_of_ascii "// top
+MetaData msg_type {
+    // c2
+    int32 As `crlf
+    line`,
+    // c6
+    MetaDataX x `a\`,
+    // c10
+    int8 _x,
+    // c13
+    char[] As `u8 x,`,
+    // c17
+    zchar[3] uint8x,
+    // c22
+    As Foo,
+    // c25
 }
+
+// c26
+root packet repeatCount {
+    // c30
+}
+// c31")).
+Eval vm_compute in ("<<<M210>>>" ++ check (runes_of_ascii "packet x  {/// triple
+repeat// c
+int ,}
+root
+packet
+A
+{i8i8 Packet,}
+packet
+    // `tick` ""quote"" 'q'
+    pack {@lengthOf( msg_type
+)
+    // packet A { u8 x, }
+    f32a As `it's`
+, } root packet f32a
+{ i64_
+@lengthOf(// 50% %s
+matchKey
+)	`doc` ,
+}
+// " ++ [27880; 37322]%N ++ runes_of_ascii "
 ")).
-Eval vm_compute in ("<<<M144>>>" ++ check (runes_of_ascii "packet leftPad { @leftPad
-(
-' ' ) @calculatedFrom( """ ++ [28040; 24687]%N ++ runes_of_ascii """	) zchar[
-    4294967296 ]string_, metadata
-    { tag  @lengthOf( body ) `two words` ,} ,@tag( 255 )
-int16 asx @calculatedFrom( ""a	b""
-    )
-// `tick` ""quote"" 'q'
-// `tick` ""quote"" 'q'
-`{ , }`// c
-, }
-")).
-Eval vm_compute in ("<<<M514>>>" ++ check (runes_of_ascii "packet
-    asx { @calculatedFrom(
+Eval vm_compute in ("<<<M392>>>" ++ check (runes_of_ascii "packet
+    asx asx { @calculatedFrom(
 """"  ) @tag( 255 )repeat
 // packet A { u8 x, }
 // trailing space 
 int16 u8x
 ,
 @tag(
-    //
-    007 )
-    @tag( 0
-    /// triple
-    ) @tag( 1) u
-    @lengthOf( T packet,
-// `tick` ""quote"" 'q'
-//x
-} // " ++ [128512]%N ++ runes_of_ascii " emoji")).
-Eval vm_compute in ("<<<M1801>>>" ++ check (runes_of_ascii "  packet
-Logon{ 
-string	user 
-,
-
-    }
-
-root  packet
-Frame {
-	u8
-K
-
-    ,
-
-    match K	as Body{	1
-
-:Logon
-
-    ,
-2
-	:
-Logout
-
-,  } ,  Tail
-,  }
-    packet Logout	{
-
-    u16
-    reason  ,
-    }
-packet
-
-    Tail { u32 crc ,
-} ")).
-Eval vm_compute in ("<<<M454>>>" ++ check (runes_of_ascii "packet
-    asx { @calculatedFrom(
-""""  ) @tag( 255 )repeat
-// packet A { u8 x, }
-// trailing space 
-int16 u8x
-,
-uint8
     //
     007 )
     @tag( 0
@@ -773,7 +854,24 @@ uint8
 // `tick` ""quote"" 'q'
 //x
 } // " ++ [128512]%N ++ runes_of_ascii " emoji")).
-Eval vm_compute in ("<<<M506>>>" ++ check (runes_of_ascii "packet
+Eval vm_compute in ("<<<M532>>>" ++ check (runes_of_ascii "packet
+    asx { @calculatedFrom(
+""""  ) @tag( 255 )repeat
+// packet A { u8 x, }
+// trailing space 
+int16 u8x
+,
+\@tag(
+    //
+    007 )
+    @tag( 0
+    /// triple
+    ) @tag( 1) u
+    @lengthOf( T ),
+// `tick` ""quote"" 'q'
+//x
+} // " ++ [128512]%N ++ runes_of_ascii " emoji")).
+Eval vm_compute in ("<<<M479>>>" ++ check (runes_of_ascii "packet
     asx { @calculatedFrom(
 """"  ) @tag( 255 )repeat
 // packet A { u8 x, }
@@ -785,63 +883,132 @@ int16 u8x
     007 )
     @tag( 0
     /// triple
-    ) @tag( 1) u
-    @lengthOf(  ),
+    ( @tag( 1) u
+    @lengthOf( T ),
 // `tick` ""quote"" 'q'
 //x
 } // " ++ [128512]%N ++ runes_of_ascii " emoji")).
-Eval vm_compute in ("<<<M248>>>" ++ check (runes_of_ascii "packet roots
-{ @lengthOf(	Header ) @tag( 4294967296 //	t
-) repeat leftPad `
-` , calculatedFrom
-    // packet A { u8 x, }
-    {
-repeat
-    char[] As , } , //	t
-char[] charz
-@calculatedFrom( //
-""" ++ [28040; 24687]%N ++ runes_of_ascii """	) ,
-    uint8x `tab	here` ,}")).
-Eval vm_compute in ("<<<M1846>>>" ++ check (runes_of_ascii "packet roots {
-    @lengthOf(Header)
-    @tag(4294967296)
-    repeat leftPad `
-        `,
-    calculatedFrom {
-        repeat char[] As,
-    },//	t
-    char[] charz @calculatedFrom(""" ++ [28040; 24687]%N ++ runes_of_ascii """),
-    uint8x `tab	here`,
-}")).
-Eval vm_compute in ("<<<M111>>>" ++ check (runes_of_ascii "
-MetaData
-_x
-{Z9_ MetaDataX
+Eval vm_compute in ("<<<M406>>>" ++ check (runes_of_ascii "packet
+    asx { @calculatedFrom(
+  ) @tag( 255 )repeat
+// packet A { u8 x, }
 // trailing space 
-// @lengthOf(
-, char[]_x`u8 x,`,
-} packet charz {
-//x
-// " ++ [128512]%N ++ runes_of_ascii " emoji
+int16 u8x
+,
 @tag(
-65535 ) string_ chars , asx
     //
-    @lengthOf( u128
-    )
-, } 	 ")).
-Eval vm_compute in ("<<<M1688>>>" ++ check (runes_of_ascii "packet A {
-    match k as n {
-        [
-            ""a"", ""bb"", ""c c"", ""d"", ""e"",
-            ""f"", ""g"", ""h"", ""i"", ""j"",
-            ""k"", ""l""
-        ] : B,
-        2 : C,
+    007 )
+    @tag( 0
+    /// triple
+    ) @tag( 1) u
+    @lengthOf( T ),
+// `tick` ""quote"" 'q'
+//x
+} // " ++ [128512]%N ++ runes_of_ascii " emoji")).
+Eval vm_compute in ("<<<M56>>>" ++ check (runes_of_ascii "MetaData repeatCount
+    { u8 x
+`// not a comment`//x
+,// @lengthOf(
+char[] /// triple
+packetx	,  u8 float ,	float32 As`two words`, Z9_ //	t
+crc `" ++ [233]%N ++ runes_of_ascii "` ,
+    }MetaData int { matchKey int ,leftPad
+metadata `100% of %d`
+,}
+
+")).
+Eval vm_compute in ("<<<M338>>>" ++ check (runes_of_ascii "root packet trueish// packet A { u8 x, }
+{ @tag( 00
+    // 50% %s
+    ) rootA @lengthOf( float) ,
+@rightPad (
+'0' ) pack string_ ,
+    }  packet i8i8
+    {
+string o
+    @calculatedFrom( """ ++ [128512]%N ++ runes_of_ascii """	)
+, }
+")).
+Eval vm_compute in ("<<<M1306>>>" ++ check (runes_of_ascii "  packet
+A
+{u8
+	a ,
+    }
+    packet
+B
+    {	u16
+	b
+
+,
+}
+root	packet P
+	{ u8
+K1,
+u8
+	K2 ,
+    match K1
+
+as
+
+M1 {
+1
+:
+    A
+,
+	}  ,	match
+
+    K2
+
+as 
+M2{1
+:
+
+B
+    , }
+
+,  }
+")).
+Eval vm_compute in ("<<<M672>>>" ++ check (runes_of_ascii "MetaData u
+    { } MetaData o
+{ float uint8x
+`100% of %d` ,repeatCount u8x, string_ leftPad
+, i32
+    Foo , int64 x `two words` , calculatedFrom
+stringy stringy `a\` ,
+}
+")).
+Eval vm_compute in ("<<<M559>>>" ++ check (runes_of_ascii "MetaData u
+    i64 } MetaData o
+{ float uint8x
+`100% of %d` ,repeatCount u8x, string_ leftPad
+, i32
+    Foo , int64 x `two words` , calculatedFrom
+stringy `a\` ,
+}
+")).
+Eval vm_compute in ("<<<M1670>>>" ++ check (runes_of_ascii "packet T {
+    @calculatedFrom(""1"")
+    @tag(0)
+    crc {
+        int16 falsey,/// triple
+        int64 i8i8,
     },
-}")).
-Eval vm_compute in ("<<<M716>>>" ++ check (runes_of_ascii "packet
+    Header,
+    trueish,
+}
+// packet A { u8 x, }")).
+Eval vm_compute in ("<<<M673>>>" ++ check (runes_of_ascii "MetaData u
+    { } MetaData o
+{ float uint8x
+`100% of %d` ,repeatCount u8x, string_ leftPad
+, i32
+    Foo , int64 x `two words` , calculatedFrom
+`a\` stringy ,
+}
+")).
+Eval vm_compute in ("<<<M711>>>" ++ check (runes_of_ascii "packet
 crc
-{repeat  F" ++ [127]%N ++ runes_of_ascii "oo A  `u8 x,` ,	@lengthOf( uint8x ) string
+{repeat  Foo A  `u8 x,` ,	true uint8x ) string
 matchKey @lengthOf( stringy ) `a\`
 ,
     // c
@@ -852,146 +1019,136 @@ leftPad
     crc
 `" ++ [233]%N ++ runes_of_ascii "`
 ,}")).
-Eval vm_compute in ("<<<M698>>>" ++ check (runes_of_ascii "MetaData u
-    { } MetaData o
-{ float uint8x
-`100% of %d` ,repeatCount u8x, string_ leftPad
-, i32
-    Foo , int64 x `two words` , calculatedFrom
-@xstringy `a\` ,
-}
-")).
-Eval vm_compute in ("<<<M609>>>" ++ check (runes_of_ascii "MetaData u
-    { } MetaData o
-{ float uint8x
-`100% of %d` ,repeatCount `
-`, string_ leftPad
-, i32
-    Foo , int64 x `two words` , calculatedFrom
-stringy `a\` ,
-}
-")).
-Eval vm_compute in ("<<<M674>>>" ++ check (runes_of_ascii "MetaData u
-    { } MetaData o
-{ float uint8x
-`100% of %d` ,repeatCount u8x, string_ leftPad
-, i32
-    Foo , int64 x `two words` , calculatedFrom
-packet `a\` ,
-}
-")).
-Eval vm_compute in ("<<<M1443>>>" ++ check (runes_of_ascii "MetaData _x {
-    Z9_ MetaDataX,
-    char[] _x `u8 x,`,
-}
-
-packet charz {
-    //x
-    // " ++ [128512]%N ++ runes_of_ascii " emoji
-    @tag(65535)
-    string_ chars,
-    asx @lengthOf(u128),
-}")).
-Eval vm_compute in ("<<<M211>>>" ++ check (runes_of_ascii "
-MetaData float { }packet
-    x
-    {
-// 50% %s
-// a // b
-float@calculatedFrom( ""\" ++ [233]%N ++ runes_of_ascii """
-) , uint32 body ,} options { repeatCount
-= float32 } // @lengthOf(")).
-Eval vm_compute in ("<<<M1758>>>" ++ check (runes_of_ascii "packet A {
-    Inner {
-        u8 x `a
-                b`,
-        Deep {
-            u8 y `a
-                        b`,
-        },
-    },
-}")).
-Eval vm_compute in ("<<<M1686>>>" ++ check (runes_of_ascii "  options	{ A
-	=""\n""
-
-; // @lengthOf(
-  	len
-    =
-	' '
-	; 
-body
-	= 4294967296 ;
-int
-	=3
-charz ='0'
-	}
-        // packet A { u8 x, }")).
-Eval vm_compute in ("<<<M85>>>" ++ check (runes_of_ascii "
-MetaData metadata
+Eval vm_compute in ("<<<M1909>>>" ++ check (runes_of_ascii "
+options 
 {
-u64 charz	`crlf
-line`  , int64 options1	, } options
-{ tag = ""CRC32""
-    // " ++ [27880; 37322]%N ++ runes_of_ascii "
-    ; u8x
-    ='\x00' }")).
-Eval vm_compute in ("<<<M1428>>>" ++ check (runes_of_ascii "
-root
-
-    packet
-	string_  {}
-
-    options {i64_
+    }options  {MetaDataX
 =
-'\x00'  ;
 
-Pad
-    =
-	int32
+    char
+;} 
+MetaData
+	Pad
+	{
+i8
 
-;
-calculatedFrom= 
-255
-    }
+    metadata  , // c
+string
+    stringy
+    ,
+int8
+
+    As `{ , }` ,}
 
 ")).
-Eval vm_compute in ("<<<M1216>>>" ++ check (runes_of_ascii "options { } options { MetaDataX =
-// c
-char ; } MetaData Pad { i8 metadata , string stringy , int8 As `{ , }` , }")).
-Eval vm_compute in ("<<<M1248>>>" ++ check (runes_of_ascii "options { } options { MetaDataX = char ; } MetaData Pad { i8 metadata , string stringy , int8 As `{ , }` ,
-// c
-}")).
-Eval vm_compute in ("<<<M1290>>>" ++ check (runes_of_ascii "options {
-    LittleEndian = true;
+Eval vm_compute in ("<<<M475>>>" ++ check (runes_of_ascii "packet
+    asx { @calculatedFrom(
+""""  ) @tag( 255 )repeat
+// packet A { u8 x, }
+// trailing space 
+int16 u8x
+,
+@tag(
+    //
+    007 )
+    @tag(")).
+Eval vm_compute in ("<<<M1489>>>" ++ check (runes_of_ascii "
+
+  packet
+A 
+{ 
+match k
+
+    as  n{ [ ""a""
+    ,  ""bb"" ,	007, ""d"", 
+""e"",66
+, 
+""g""
+	,""h""
+
+    , 9
+	] :
+    B  ,
+
+    2 :	C 
 }
-root packet P {
-    u16 a,
-    u32 Sum @calculatedFrom(""CR\
-C32""),
-}
+, }")).
+Eval vm_compute in ("<<<M1924>>>" ++ check (runes_of_ascii "  packet 
+u8x{@leftPad
+(//	t
+'0'//x
+	)	uint8x  lengthOf `line1
+line2`  
+  // 50% %s
+	, 
+} packet	msg_type {}
+MetaData u 
+{
+	}
 ")).
-Eval vm_compute in ("<<<M866>>>" ++ check (runes_of_ascii "packet A {
+Eval vm_compute in ("<<<M528>>>" ++ check (runes_of_ascii "packet
+    asx { @calculatedFrom(
+""""  ) @tag( 255 )repeat
+// packet A { u8 x, }
+// trailing space 
+int16 u8x
+,
+@tag(
+")).
+Eval vm_compute in ("<<<M1207>>>" ++ check (runes_of_ascii "options { } // c
+options { MetaDataX = char ; } MetaData Pad { i8 metadata , string stringy , int8 As `{ , }` , }")).
+Eval vm_compute in ("<<<M1239>>>" ++ check (runes_of_ascii "options { } options { MetaDataX = char ; } MetaData Pad { i8 metadata , string stringy , // c
+int8 As `{ , }` , }")).
+Eval vm_compute in ("<<<M908>>>" ++ check (runes_of_ascii "packet A {
   match k as n {
-    [""a"", ""bb"", ""c c"", ""d"", ""e"", ""f"", ""g"", ""h"", ""i""] : B
+    [""a"", 22, ""c c"", 4, ""e"", 66, ""g"", 8, ""i"", 10, ""k"", 12] : B,
     2 : C
   },
 }")).
-Eval vm_compute in ("<<<M852>>>" ++ check (runes_of_ascii "packet A {
+Eval vm_compute in ("<<<M1696>>>" ++ check (runes_of_ascii "packet	A
+{
+match
+k
+
+    as 
+n
+{
+[ ""a"",	22,
+	""c c""
+    ,	4,
+    ""e""
+,
+
+    66
+]
+
+:
+B 2:C}  ,}
+")).
+Eval vm_compute in ("<<<M897>>>" ++ check (runes_of_ascii "packet A {
   match k as n {
-    [""a"", ""bb"", ""c c"", ""d"", ""e"", ""f"", ""g"", ""h""] : B,
+    [1, 22, ""c c"", 4, 5, ""f"", 7, 8, ""i"", 10, 11] : B,
     2 : C
   },
 }")).
-Eval vm_compute in ("<<<M385>>>" ++ check (runes_of_ascii "root packet SimpleMessage {
-    uint16 MsgType `" ++ [28040; 24687; 31867; 22411]%N ++ runes_of_ascii "`,
-    string JsonBody `Json" ++ [23383; 31526; 20018; 28040; 24687; 20307]%N ++ runes_of_ascii "`,
-}")).
-Eval vm_compute in ("<<<M872>>>" ++ check (runes_of_ascii "packet A {
-  match k as n {
-    [1, 22, ""c c"", 4, 5, ""f"", 7, 8, ""i""] : B
-    2 : C
-  },
-}")).
+Eval vm_compute in ("<<<M1620>>>" ++ check (runes_of_ascii "
+packet
+
+    A  {match
+	k
+as
+
+    n
+
+{
+    [""a""
+    ,
+""bb"" , 007] 
+:
+B,
+    2:  C} ,	}
+")).
+Eval vm_compute in ("<<<M750>>>" ++ check (runes_of_ascii "a1 ""// no comment"" ' ' uint8 0 repeat char[ string MetaData ""`tick`"" uint64 00 char @tag(")).
 Eval vm_compute in ("<<<M1315>>>" ++ check (runes_of_ascii "
 packet
     order_item {	u8 
@@ -1003,81 +1160,95 @@ root packet	new_order{  order_item ,
 u8  x
 
 ,} ")).
-Eval vm_compute in ("<<<M114>>>" ++ check (runes_of_ascii "// `tick` ""quote"" 'q'
-options{
-chars  =
-65535	packetx =
-""packet""Z9_
-    = '0' ; }")).
-Eval vm_compute in ("<<<M801>>>" ++ check (runes_of_ascii "packet A {
+Eval vm_compute in ("<<<M12>>>" ++ check (runes_of_ascii "options
+    { x = ""a\\""; } MetaData u {u8
+falsey ,
+    crc zchar , }
+/// triple
+")).
+Eval vm_compute in ("<<<M1735>>>" ++ check (runes_of_ascii "
+
+  packet
+	A
+    {
+
+    match  k as n 
+{ [""a""
+    ] : 
+B  ,
+	2
+	:  C 
+} ,}
+")).
+Eval vm_compute in ("<<<M802>>>" ++ check (runes_of_ascii "packet A {
   match k as n {
-    [""a"", ""bb"", ""c c"", ""d""] : B
+    [1, ""bb"", 007, ""d""] : B,
     2 : C
   },
 }")).
-Eval vm_compute in ("<<<M888>>>" ++ check (runes_of_ascii "packet A { Inner { match k as n { [1,22,007,4,5,66,7,8,9,10] : B, }, }, }")).
-Eval vm_compute in ("<<<M798>>>" ++ check (runes_of_ascii "packet A {
-  match k as n {
-    [1, 22, 007, 4] : B,
-    2 : C
-  },
+Eval vm_compute in ("<<<M1939>>>" ++ check (runes_of_ascii "root packet Packet {
+    match f32a as Foo {
+        1 : tag,
+    },
 }")).
-Eval vm_compute in ("<<<M1567>>>" ++ check (runes_of_ascii "root packet P {
-    u8 s_u8,
-    repeat u8 r_u8,
-    u16 b_len,
-}")).
-Eval vm_compute in ("<<<M1476>>>" ++ check (runes_of_ascii "
-
-  MetaData M
-{u8
-
-x`tab
-	x` ,
-
-    T  t	`tab
-	x`
-	,
-	}
-")).
-Eval vm_compute in ("<<<M1138>>>" ++ check (runes_of_ascii "// top
-root // c0
-packet // c1
-a1 // c2
-{ // c3
-} // c4
-")).
-Eval vm_compute in ("<<<M1812>>>" ++ check (runes_of_ascii "root packet u {
-    Pad asx,
-    calculatedFrom,
-}")).
-Eval vm_compute in ("<<<M1830>>>" ++ check (runes_of_ascii "MetaData i8i8 {
-    // a // b
-    int8 As,
-}")).
-Eval vm_compute in ("<<<M1821>>>" ++ check (runes_of_ascii "root packet A {
-    u8 x `tab
-    	x`,
-}")).
-Eval vm_compute in ("<<<M1185>>>" ++ check (runes_of_ascii "options { // c
-A = ""// no comment"" }")).
-Eval vm_compute in ("<<<M747>>>" ++ check ([1771]%N ++ runes_of_ascii "$" ++ [65533]%N ++ runes_of_ascii ":" ++ [1970]%N ++ runes_of_ascii "6x" ++ [1777]%N ++ runes_of_ascii "[$-." ++ [65533]%N ++ runes_of_ascii "3" ++ [1235; 65533; 65533; 65533]%N ++ runes_of_ascii "$" ++ [65533; 65533]%N ++ runes_of_ascii "u" ++ [65533]%N ++ runes_of_ascii "@~" ++ [65533; 65533]%N ++ runes_of_ascii "P" ++ [0; 65533]%N ++ runes_of_ascii "l" ++ [65533; 16]%N)).
-Eval vm_compute in ("<<<M1017>>>" ++ check (runes_of_ascii "packet A {
- u8 x `d" ++ [5760]%N ++ runes_of_ascii "`, // c" ++ [5760]%N ++ runes_of_ascii "
-}")).
-Eval vm_compute in ("<<<M740>>>" ++ check (runes_of_ascii "? Yk{t2<omLkW}'N@Vi/x[_j_,J")).
-Eval vm_compute in ("<<<M157>>>" ++ check (runes_of_ascii "MetaData x_y_z
-    { }
-")).
-Eval vm_compute in ("<<<M1127>>>" ++ check (runes_of_ascii "MetaData tag
+Eval vm_compute in ("<<<M1639>>>" ++ check (runes_of_ascii "
 // c
-{ }")).
-Eval vm_compute in ("<<<M1025>>>" ++ check (runes_of_ascii "packet A {
+		MetaData
+	leftPad  {	msg_type
+    As
+
+    `{ , }` , }")).
+Eval vm_compute in ("<<<M1163>>>" ++ check (runes_of_ascii "// top
+packet
+    // c0
+x
+    // c1
+{
+    // c2
 }
-// c" ++ [8202]%N)).
-Eval vm_compute in ("<<<M1003>>>" ++ check (runes_of_ascii "packet A {
-}// c" ++ [160]%N)).
+    // c3
+")).
+Eval vm_compute in ("<<<M772>>>" ++ check (runes_of_ascii "packet A {
+  match k as n {
+    [1] : B
+    2 : C
+  },
+}")).
+Eval vm_compute in ("<<<M1918>>>" ++ check (runes_of_ascii "MetaData i64_ {
+    zchar[0123456789] i8i8 `" ++ [233]%N ++ runes_of_ascii "`,
+}")).
+Eval vm_compute in ("<<<M981>>>" ++ check (runes_of_ascii "options {
+    a = ""x\
+y"";
+    b = ""x\
+y""
+}")).
+Eval vm_compute in ("<<<M987>>>" ++ check (runes_of_ascii "options {
+    a = ""\
+"";
+    b = ""\
+""
+}")).
+Eval vm_compute in ("<<<M1190>>>" ++ check (runes_of_ascii "options { A =
+// c
+""// no comment"" }")).
+Eval vm_compute in ("<<<M747>>>" ++ check ([1771]%N ++ runes_of_ascii "$" ++ [65533]%N ++ runes_of_ascii ":" ++ [1970]%N ++ runes_of_ascii "6x" ++ [1777]%N ++ runes_of_ascii "[$-." ++ [65533]%N ++ runes_of_ascii "3" ++ [1235; 65533; 65533; 65533]%N ++ runes_of_ascii "$" ++ [65533; 65533]%N ++ runes_of_ascii "u" ++ [65533]%N ++ runes_of_ascii "@~" ++ [65533; 65533]%N ++ runes_of_ascii "P" ++ [0; 65533]%N ++ runes_of_ascii "l" ++ [65533; 16]%N)).
+Eval vm_compute in ("<<<M173>>>" ++ check (runes_of_ascii "options	{ Z9_	= ""abc""
+    ;
+}
+")).
+Eval vm_compute in ("<<<M761>>>" ++ check (runes_of_ascii """\" ++ [233]%N ++ runes_of_ascii """ as char MetaData char[]")).
+Eval vm_compute in ("<<<M1142>>>" ++ check (runes_of_ascii "
+// c
+root packet a1 { }")).
+Eval vm_compute in ("<<<M1122>>>" ++ check (runes_of_ascii "// c
+MetaData tag { }")).
+Eval vm_compute in ("<<<M1021>>>" ++ check (runes_of_ascii "// c" ++ [8192]%N ++ runes_of_ascii "
+packet A {
+}")).
+Eval vm_compute in ("<<<M993>>>" ++ check (runes_of_ascii "packet A {
+}// c ")).
 Eval vm_compute in ("<<<M367>>>" ++ check (runes_of_ascii "
  // @lengthOf(")).
-Eval vm_compute in ("<<<M754>>>" ++ check (runes_of_ascii "int64")).
-Eval vm_compute in ("<<<M732>>>" ++ check ([65279]%N)).
+Eval vm_compute in ("<<<M760>>>" ++ check (runes_of_ascii "V]kUb{")).
+Eval vm_compute in ("<<<M728>>>" ++ check (runes_of_ascii "//")).
